@@ -70,6 +70,7 @@ class GEngine(object):
         self.samples = []
         self.failures = []  # (spec, result)
         self.golden_violations = []
+        self.rejected_goldens = {}
         self.selftest = {}
         self.harness_error_samples = []
 
@@ -131,6 +132,7 @@ class GEngine(object):
                 self.jobs[j.id] = j
                 self.goldens[j.id] = g1
                 self.poisons.append(j.id)
+                self.rejected_goldens[j.id] = (g1, g2)
                 rejected += 1
             elif not is_poison:
                 # succeeds under one environment and fails under the other
@@ -391,7 +393,7 @@ class GEngine(object):
 
     def expected_probes(self):
         return ["run_with_predecessor", "rerun_same_job", "preexisting_longer", "preexisting_shorter",
-                "env_op", "run_in_other_cwd", "fresh_runs", "entry_args", "entry_api",
+                "env_op", "run_in_other_cwd", "fresh_runs", "entry_args", "entry_api", "entry_args_reuse",
                 "fault_fired_open_eacces", "fault_fired_write_enospc", "fault_fired_close_eio",
                 "fault_fired_open_enoent", "abort_left_open_handles"]
 
@@ -441,6 +443,15 @@ class GEngine(object):
     def replay(self, path):
         with open(path) as fp:
             rf = json.load(fp)
+        if rf.get("must_succeed"):
+            job = J.Job.from_json(rf["job"])
+            g1 = campaign.fresh_run(job, campaign.ENV_A, rf["hashseed"])
+            print(json.dumps({"status": g1["status"], "message": g1.get("message", "")[-300:]}))
+            if g1["status"] != "ok":
+                print("VIOLATION property=%s replay=%s" % (self.prop, path))
+                return 1
+            print("not reproduced")
+            return 0
         if rf.get("golden_pair"):
             job = J.Job.from_json(rf["job"])
             envs = rf.get("envs") or [campaign.ENV_A, campaign.ENV_B]
